@@ -30,7 +30,8 @@ QUICK_RUNS = 6000
 THOROUGH_RUNS = 400_000
 EXPECT_PROBES = ["stop_during_restart_delay", "stop_during_run", "stop_before_start", "stop_after_completion",
                  "restart_limit_reached", "base_exception_outcome", "cancel_converted_to_exception", "extra_task_added",
-                 "run_utils_used", "start_while_running", "concurrent_stops", "extra_task_failed"]
+                 "run_utils_used", "start_while_running", "concurrent_stops", "extra_task_failed",
+                 "actors_with_equal_names"]
 
 
 class ProbeBase(BaseException):
@@ -40,7 +41,8 @@ class ProbeBase(BaseException):
 class Rec:
     def __init__(self, sim: Sim, name: str) -> None:
         self.sim = sim
-        self.name = name
+        self.name = name                              # the harness' key for this actor
+        self.actor_name = name                        # what the actor is constructed with (need not be unique)
         self.invocations: list[dict[str, Any]] = []   # {k, t_enter, t_exit, how}
         self.active = 0
         self.starts: list[int] = []                   # evno of effective start() calls
@@ -54,7 +56,7 @@ def make_probe_class() -> Any:
 
     class Probe(Actor):
         def __init__(self, sim: Sim, rec: Rec, scripts: list[dict[str, Any]]) -> None:
-            super().__init__(name=rec.name)
+            super().__init__(name=rec.actor_name)
             self.sim = sim
             self.rec = rec
             self.scripts = scripts
@@ -127,7 +129,7 @@ def scenario(sim: Sim) -> None:
     limit = ch.choice("restart_limit", [None, 0, 1, 3])
     Probe.RESTART_DELAY = timedelta(microseconds=delay_us)
     Probe._restart_limit = limit
-    nact = 1 + ch.weighted("nactors", [3, 1])
+    nact = 1 + ch.weighted("nactors", [3, 1, 1])
     sim.set_cost_mode(ch.weighted("cost_mode", [3, 1]))
     slack = 0 if sim.loop.cost_mode == 0 else 5_000
     recs: list[Rec] = []
@@ -145,6 +147,11 @@ def scenario(sim: Sim) -> None:
         rec = Rec(sim, f"p{a}")
         recs.append(rec)
         actors.append((rec, scripts))
+    if nact > 1 and ch.chance("same_actor_name", 0.3):
+        # names are labels, not identities: several actors of one class constructed with the same name
+        for r in recs:
+            r.actor_name = "p"
+        sim.probe("actors_with_equal_names")
     sim.config.update(delay_us=delay_us, limit=limit, nact=nact,
                       scripts=[[(s["outcome"], len(s["steps"]), s["on_cancel"]) for s in sc] for _, sc in actors])
     sim.note(f"restart_delay={delay_us}us limit={limit} scripts={sim.config['scripts']}")
